@@ -143,6 +143,10 @@ func Unpack(dst, src []byte) ([]byte, error) {
 			src = src[1:]
 			n := copy(dst[start:], src)
 			src = src[n:]
+			if n < len(dst)-start {
+				// The input ends inside the run of unpacked words.
+				return dst[:start+n], io.ErrUnexpectedEOF
+			}
 		}
 	}
 	return dst, nil
@@ -222,6 +226,10 @@ func (r *Reader) ReadWord(p []byte) error {
 	case r.literal > 0:
 		r.literal--
 		_, err := io.ReadFull(r.rd, p)
+		if err == io.EOF {
+			// The stream ends inside the run of unpacked words.
+			err = io.ErrUnexpectedEOF
+		}
 		return err
 	}
 
